@@ -231,6 +231,10 @@ class extract_visitor(NodeVisitor):
         for d in node.decorator_list:
             self.visit(d)
 
+        for tp in getattr(node, 'type_params', ()):
+            # bounds and defaults of PEP 695 type parameters read outer names
+            self.visit(tp)
+
         for df in node.args.defaults:
             self.visit(df)
 
@@ -276,6 +280,7 @@ class extract_visitor(NodeVisitor):
         # type: (ast.ClassDef) -> None
         cur = self.flow
         self.visit_in_flow(node.decorator_list, cur)
+        self.visit_in_flow(list(getattr(node, 'type_params', ())), cur)
         self.visit_in_flow(node.bases, cur)
         for kw in getattr(node, 'keywords', []):
             self.visit_in_flow(kw.value, cur)
